@@ -2257,7 +2257,7 @@ DLLIMPORT int cfg_setbool(cfg_t *cfg, const char *name, cfg_bool_t value)
 
 DLLIMPORT int cfg_opt_setnstr(cfg_opt_t *opt, const char *value, unsigned int index)
 {
-	char *newstr, *oldstr = NULL;
+	char *newstr = NULL, *oldstr;
 	cfg_value_t *val;
 
 	if (!opt || opt->type != CFGT_STR) {
@@ -2265,24 +2265,25 @@ DLLIMPORT int cfg_opt_setnstr(cfg_opt_t *opt, const char *value, unsigned int in
 		return CFG_FAIL;
 	}
 
-	val = cfg_opt_getval(opt, index);
-	if (!val)
-		return CFG_FAIL;
-
-	if (val->string)
-		oldstr = val->string;
-
+	/*
+	 * Copy first: value may be the string the option holds now, which
+	 * cfg_opt_getval() releases when it is a default value.
+	 */
 	if (value) {
 		newstr = strdup(value);
 		if (!newstr)
 			return CFG_FAIL;
-		val->string = newstr;
-	} else {
-		val->string = NULL;
 	}
 
-	if (oldstr)
-		free(oldstr);
+	val = cfg_opt_getval(opt, index);
+	if (!val) {
+		free(newstr);
+		return CFG_FAIL;
+	}
+
+	oldstr = val->string;
+	val->string = newstr;
+	free(oldstr);
 	opt->flags |= CFGF_MODIFIED;
 
 	return CFG_SUCCESS;
